@@ -790,3 +790,18 @@ addendum('C14', 'R17 = C02.R17.')
 addendum('C01', 'R15 = C09.R12 (sa/streams.py); R11 takes all of C09.R4.')
 addendum('C07', 'R15 = C08.R5.')
 
+
+
+# ---- round 15 (DESIGN.md 8.4, "Round 15")
+addendum('C02', 'R4 (round 15): must-pass-through - on every complete '
+         'iteration of Producer.generate on which the skip guard admits the '
+         'node and the abort flag is clear, the CFG path contains the '
+         'delegation to __mutate_node (no second condition drops a node).')
+addendum('C11', 'R4 (round 15): the structural lookup of substitute counts '
+         'only when the path facts guarantee its evaluation (nothing but '
+         'emptiness tests of the map may precede it in a conjunction).')
+addendum('C16', 'R18 (round 15): an extract operator a mutator puts onto an '
+         'operand T has indices L <= H < width(T) - difference-bound '
+         'entailment from the CFG guard facts of the construction site over '
+         'linear guards (sa/extractbounds.py); R1 also knows the fixed '
+         'result sorts of the string / regex / sequence operators.')
